@@ -235,15 +235,17 @@ func runHistory(c *core.Case) {
 	r := c.Rand
 	thorough := c.Tier == "thorough"
 	o := sess.Opts{S2S: r.Intn(2) == 0}
-	if r.Intn(6) == 0 {
+	if c.Index%6 == 1 {
 		// negotiated by the library's default negotiator; the peer's header may
-		// leave out its to attribute
-		o.Default, o.PeerOmitsTo = true, r.Intn(3) != 0
+		// leave out its to attribute (combinations by case index, so that every
+		// run has them)
+		o.S2S = (c.Index/6)%2 == 0
+		o.Default, o.PeerOmitsTo = true, (c.Index/6)%3 != 2
 		c.Count("sessions_from_the_default_negotiator", 1)
 		if o.PeerOmitsTo && o.S2S {
 			c.Count("s2s_sessions_whose_peer_header_omits_to", 1)
 		}
-	} else if r.Intn(6) == 0 {
+	} else if c.Index%6 == 4 {
 		// a stream with another content namespace (XEP-0114 component)
 		o = sess.Opts{Component: true, Local: "comp.example.net", Remote: "example.net"}
 		c.Count("component_streams", 1)
@@ -534,7 +536,27 @@ func runHistory(c *core.Case) {
 		if partialForm != "" {
 			key = "wire:after-partial:" + partialForm + ":malformed"
 		}
-		c.Violate(key, "output stream is not well-formed after offset %d: %v\n…%q", st.Consumed, st.Err, wire[lo:hi])
+		// name the calls whose markers are near the break
+		var near []string
+		unflushed := 0
+		for _, rs := range recs {
+			for _, rec := range rs {
+				if rec.Marker != "" && bytes.Contains(wire[lo:hi], []byte(`vm="`+rec.Marker+`"`)) {
+					near = append(near, fmt.Sprintf("%s(%s) marker %s err=%q", rec.Entry, rec.Form, rec.Marker, rec.Err))
+					if rec.Entry == "Encode" && rec.Form == "xmlstream.WriterTo" && rec.Err == "" {
+						unflushed++
+					}
+				}
+			}
+		}
+		if len(near) > 0 && unflushed == len(near) && key == "wire:malformed" {
+			// the element that breaks off is one that Encode left in the buffer
+			// without flushing: when it is larger than the buffer its head went out
+			// and the rest was lost with the session.  Same defect, same key, as
+			// the element that is transmitted late or not at all.
+			key = "wire:Encode:unflushed:xmlstream.WriterTo"
+		}
+		c.Violate(key, "output stream is not well-formed after offset %d: %v\n…%q\ncalls near the break: %v", st.Consumed, st.Err, wire[lo:hi], near)
 		return
 	}
 	all := map[string]*opRec{}
